@@ -146,6 +146,13 @@ ReplaceCalls ==
   {[C("ReplaceNodes") EXCEPT !.g = g, !.n = ip, !.vs = <<o>>, !.ws = nw, !.v = v, !.w = w] :
       g \in G, ip \in N, o \in N, nw \in {<<>>} \cup [1..1 -> N], v \in PV, w \in PV}
 
+\* Graph(...): for every pristine graph slot; inputs / outputs none, one, or an increasing pair; one initializer or
+\* none; one node or none
+IOArgs == {<<>>} \cup [1..1 -> PV] \cup {q \in VPairs : q[1] < q[2]}
+NewGraphCalls ==
+  {[C("NewGraph") EXCEPT !.g = g, !.vs = ins, !.ws = outs, !.v = iv, !.n = nn] :
+      g \in {x \in G : Pristine(st, x)}, ins \in IOArgs, outs \in IOArgs, iv \in PV \cup {0}, nn \in N \cup {0}}
+
 \* Node(...): few input shapes (none / one / the same value twice / value and None), fresh or supplied outputs
 NewNodeCalls ==
   IF Len(st.nIn) >= MaxNodes THEN {}
@@ -155,7 +162,8 @@ NewNodeCalls ==
             outs \in [1..1 -> PV] \cup {q \in VPairs : q[1] <= q[2]}, g \in {0, 1}}
 
 Calls == {c \in IOCalls \cup InitCalls \cup NodeCalls \cup GraphCalls \cup NewNodeCalls
-                \cup (IF "ReplaceNodes" \in Focus THEN ReplaceCalls ELSE {}) :
+                \cup (IF "ReplaceNodes" \in Focus THEN ReplaceCalls ELSE {})
+                \cup (IF "NewGraph" \in Focus THEN NewGraphCalls ELSE {}) :
              /\ c.op \in Focus
              /\ (c.g \in OpGraphs \cup {0} \/ c.op \in ForeignOps)}
 
